@@ -777,6 +777,11 @@ pub fn gen_c20(rng: &mut Rng) -> Value {
                 if rng.chance(1, 6) {
                     s["end"] = json!(*rng.pick(&["drop", "close_drop", "pending_drop", "close_commit"]));
                 }
+                if rng.chance(1, 5) {
+                    // the temp area (or the whole cache) disappears while the writer is open, e.g. a concurrent clear
+                    s["mid_after"] = json!(0);
+                    s["mid"] = json!({"act":"rmdir_all","path":*rng.pick(&["$C/tmp", "$C", "$C/content-v2"])});
+                }
                 s
             }
             5 => json!({"k":"api","op":"write","entry":*rng.pick(&["write","write_algo"]),"algo":*rng.pick(&ALGOS),"val":vi,"key":ki}),
@@ -789,7 +794,7 @@ pub fn gen_c20(rng: &mut Rng) -> Value {
             12 => json!({"k":"api","op":*rng.pick(&["remove","remove_opts"]),"key":ki,"fully":rng.chance(1,2)}),
             13 => json!({"k":"api","op":*rng.pick(&["remove_hash","exists","read"]),"addr":{"val":vi,"algo":*rng.pick(&ALGOS)}}),
             14 => json!({"k":"api","op":"clear"}),
-            _ => json!({"k":"api","op":"index_insert","key":ki,"opts":{"sri":{"val":vi,"algo":"sha1"},"size":len}}),
+            _ => json!({"k":"api","op":"index_insert","key":ki,"opts":{"sri":{"val":vi,"algo":*rng.pick(&["sha1","sha256"])},"size":*rng.pick(&[len, 0, u32::MAX as u64, i64::MAX as u64, u64::MAX])}}),
         };
         set_flav(&mut st, flav(rng));
         if st["op"] == "list" || st["op"] == "ls" {
